@@ -3076,8 +3076,14 @@ event_active_nolock_(struct event *ev, int res, short ncalls)
 			EVTHREAD_COND_WAIT(base->current_event_cond, base->th_base_lock);
 		}
 #endif
+		if (ev->ev_pncalls != NULL) {
+			/* We are called from this event's own callback, in
+			 * the middle of a batch of calls.  The batch goes on
+			 * with the new count; the pointer stays, so that
+			 * event_del() can still stop it. */
+			*ev->ev_pncalls = ncalls;
+		}
 		ev->ev_ncalls = ncalls;
-		ev->ev_pncalls = NULL;
 	}
 
 	event_callback_activate_nolock_(base, event_to_event_callback(ev));
